@@ -110,6 +110,29 @@ SIM = {
         "rule": "removals with factors None/0/below/at/above 2.5 up to 99 at random points of random histories (orders in every state), plus the same selection+factor removed in two markets of one run (sequential and event-grouped)",
         "assumptions": ASSUME_SIM + ["price reduction checked within half a cent of p*(1-af/100) (floating-point rounding of ties is not decided)"],
     },
+    "C08": {
+        "props": ["C08", "M"],
+        "designs": [{"module": "MC_Settlement", "constants": {"Prices": "{101, 200, 350, 5000}", "Stakes": "{100, 236}"},
+                     "invariants": ["Inv_SideSymmetry", "Inv_ZeroIfUnmatchedOrRemoved", "Inv_LoserLosesStake", "Inv_WinnerAtLeastLoser", "Inv_DeadHeatReduces", "Inv_LineEvenMoney"]}],
+        "profiles": [{"p_close": 1.0, "p_full_match": 0.3, "p_trade": 0.9, "p_removal": 0.08, "p_sp_order": 0.2, "p_inplay": 0.2, "center": (20, 200), "sizes": [2.0, 3.0, 0.5, 10.0, 2.36, 25.0]},
+                     {"p_close": 1.0, "p_trade": 0.9, "n_strategies": (2, 2), "market_types": ["WIN", "EACH_WAY", "EACH_WAY", "PLACE"], "center": (20, 160)}],
+        "extra": "settlement",
+        "n_quick": 160, "n_thorough": 5000,
+        "rule": "settlement rules (Settlement.tla, integer arithmetic) vs order.profit after the real close: an enumerated family (market type x results incl. dead heats x prices x sizes, paired back/lay with identical fills, line results below/equal/above) plus random runs with real fills, removals and SP",
+        "assumptions": ASSUME_SIM + ["tolerance 0.005 x size matched (x(1+1/divisor) for each-way) + 0.01: the code settles on the 2-dp average price", "dead heats in each-way and multi-winner markets are outside the statement (one-winner markets only)", "prices <= 50.0 and sizes <= 50.00 so that all products stay below 2^31"],
+    },
+    "C20": {
+        "props": ["C20"],
+        "designs": [{"module": "MC_Closure", "constants": {"Markets": '{"m1", "m2"}', "Strategies": '{"A", "B", "C"}', "Subscribed": "<- SubDef", "Clients": '{"c1", "c2"}', "Live": "FALSE", "MaxSteps": "6"},
+                     "invariants": ["Inv_CallbackOncePerClosingUpdate", "Inv_SummaryPerClientPerClose", "Inv_ClosedFlag", "Inv_ReopenResetsFlags", "Inv_StateReleased", "Inv_RemovedStateReleased"], "must_reach": ["Reach_Reclosed"]},
+                    {"module": "MC_Closure", "constants": {"Markets": '{"m1", "m2"}', "Strategies": '{"A", "B", "C"}', "Subscribed": "<- SubDef", "Clients": '{"c1", "c2"}', "Live": "TRUE", "MaxSteps": "6"},
+                     "invariants": ["Inv_CallbackOncePerClosingUpdate", "Inv_ReopenResetsFlags", "Inv_LiveRemovesOnlyAfterHour", "Inv_RemovedStateReleased"], "must_reach": ["Reach_Removed"]}],
+        "profiles": [{"p_close": 1.0, "n_markets": (1, 2), "n_updates": (3, 8)}],
+        "extra": "closure",
+        "n_quick": 80, "n_thorough": 2000,
+        "rule": "closing-update patterns (repeated CLOSED, close-data-close, first update CLOSED, two markets in either order, strategies subscribed / not subscribed / empty filter, two clients) through the real simulation; callbacks, cleared events and released state counted per closing update",
+        "assumptions": ASSUME_SIM + ["cleared-orders / cleared-market events are counted per closing update processed (reading decision, DESIGN.md section 5)", "the live half (closure through the handler queue, removal after an hour) is decided by the live driver (checks/livecheck.py)"],
+    },
     "C15": {
         "props": ["C15"],
         "designs": simcore_designs(["Inv_C15_LiveListComplete", "Inv_C15_LiveInBlotter"], ["Prop_C15_RemovedOnlyAfterComplete"]),
